@@ -594,7 +594,21 @@ def r3_compositions(repo: Repo, rep):
     rep.saw(fi)
     pname = fi.params[1]
     # partial evaluation on three recording sub-models: the result is m2(m1(m0(<sanitised input>)))
-    from ..absdom.listeval import Evaluator, NotEval, Obj, Opaque, UNKNOWN
+    from ..absdom.listeval import Evaluator, Model, NotEval, Obj, Opaque, UNKNOWN
+
+    class Rec(Model):
+        """a recorded value: the term that produced it; raw tensors and spaces taken from it are terms too (a re-labelled intermediate result is visible)"""
+
+        def __init__(self, term):
+            self.term = term
+
+        def le_getattr(self, name):
+            if name in ("as_tensor", "_t", "space"):
+                return Rec((name, self.term))
+            raise NotEval(name)
+
+    def term(v):
+        return v.term if isinstance(v, Rec) else v
 
     def on_call(e, name, args, kws, ev, f):
         tgt = None
@@ -608,17 +622,20 @@ def r3_compositions(repo: Repo, rep):
             if isinstance(v, Obj):
                 tgt = v
         if tgt is not None and args is not None and len(args) == 1 and not kws:
-            return (tgt.tag, args[0])
+            return Rec((tgt.tag, term(args[0])))
         if name == "self._fix_points_order" and args is not None and len(args) == 1:
-            return ("fix", args[0])
+            return Rec(("fix", term(args[0])))
+        if name in ("Points", "Points.from_tensor") and args is not None and len(args) == 2:
+            return Rec(("relabelled", term(args[0]), term(args[1])))
         return None
-    models = [Obj(f"m{i}") for i in range(3)]
-    fr = Evaluator(None, on_call).run(fi.node.body, {"self": Opaque("self"), pname: "P"}, attrs={"self.models": list(models)})
+    models = [Obj(f"m{i}", {"input_space": f"in{i}", "output_space": f"out{i}"}) for i in range(3)]
+    fr = Evaluator(None, on_call).run(fi.node.body, {"self": Opaque("self"), pname: Rec("P")}, attrs={"self.models": list(models)})
     want_a, want_b = ("m2", ("m1", ("m0", ("fix", "P")))), ("m2", ("m1", ("m0", "P")))
-    if fr.ret is UNKNOWN or not fr.returned:
+    if fr.ret is UNKNOWN or not fr.returned or not isinstance(fr.ret, Rec):
         rep.undecided(R, fi.site(), fi.fq, "Sequential.forward evaluable on three recording sub-models", repr(fr.ret)[:80])
     else:
-        rep.check(R, fr.ret in (want_a, want_b), fi.site(), fi.fq, "fold: points = model(points) for model in self.models (in order)", repr(fr.ret)[:120], repr(fr.ret)[:120])
+        rep.check(R, fr.ret.term in (want_a, want_b), fi.site(), fi.fq, "fold: points = model(points) for model in self.models (in order), every model receiving what its predecessor returned",
+                  repr(fr.ret.term)[:160], repr(fr.ret.term)[:160])
     init = seq.methods.get("__init__")
     if init is not None:
         rep.saw(init)
